@@ -51,6 +51,24 @@ CLAIMS.update({
          "Trusts tokio lock fairness for short sections; PEER-OUT under the context lock is recorded, not armed.", "3/C14"),
 })
 
+CLAIMS.update({
+ "C15": ("who-may-write on the rule list, post-dominance of the swap over every fallible step, guard-liveness of the read guard in process_request, Ok/Err edge separation in post_rules, serde field-set comparison",
+         "Single writer, validate-then-swap with one whole-vector assignment, one read guard per decision with no await under it, error vs success reply separated, serialised fields cover deserialised ones. Linearisation is argued from these and RwLock semantics, not model-checked.",
+         "Trusts tokio RwLock exclusivity and serde derives.", "3/C15"),
+ "C16": ("single-constructor / unique-id dataflow, gc hand-off step table, inter-procedural 'settles' summaries for the lifecycle typestate, state-constant ordering by dominance, counter pairing dataflow, log flush rule",
+         "One constructor with a fetch_add id registered as alive, exactly-once drop->gc->log/history hand-off shape, every path after create_context ends in enqueue or a terminal record, lifecycle order of state constants, recorded connector = used connector, drained early data counted, log flushed per record. Exactly-once under concurrency is argued from ownership.",
+         "Trusts one Drop per value; one known finding (tproxy early return).", "3/C16"),
+ "C17": ("dataflow from selection primitive to lookup key, single-RMW rule on the cursor, hasher construction and feed dataflow, record/use pairing",
+         "Members only (choose / index modulo len over self.connectors, verified non-empty and existing), one fetch_add(1) whose result selects, keyless deterministic hasher fed only the key with derived Hash, recorded member = used member. Statistical claims about random are not decided.",
+         "Trusts rand's choose and std DefaultHasher determinism.", "3/C17"),
+ "C18": ("rule P over the load-path call graph with anchored table, dispatch totality, call-graph SCCs for config-driven recursion, PEG analysis for exponential backtracking (shared recursive prefixes in ordered choices), must-precede of init/verify before the --test exit",
+         "No undischarged panic edge on the configuration load path or in the rule-language front end, erroring default arms, --test executes what start-up executes. Seven genuine findings are recorded as known (unbounded parser/checker/evaluator recursion, exponential-time grammar, self-referential load balancer).",
+         "Trusts serde_yaml/nom not to panic; known findings listed in known_findings.json.", "3/C18"),
+ "C19": ("must-pass of a dialing call in every connector impl, connector field enumeration against a reasoned table, Err-edge reachability of cache invalidation with string-prefix agreement, guard-liveness on the cache mutex",
+         "Only the structural clauses: per-request dialing, no connection-retaining field, the QUIC cache is cleared on the error a dead connection produces and re-created when empty, the cache lock is not held while connecting. Recovery time / attempt bounds are NOT decided.",
+         "Trusts quinn to report a dead connection from open_bi.", "3/C19"),
+})
+
 NA = {}
 ALL = ["C%02d" % i for i in range(1, 20)]
 
